@@ -173,6 +173,10 @@ def run_case(rec, case):
             if vec and layout == 'packed':
                 v = np.moveaxis(v, -1, 0); rec.count('oracle:packed_blocked_permutation')
             _close(rec, 'config_vs_canonical', v.reshape(-1), A0.reshape(-1), scale, dict(sig, layout=layout), c)
+        if vec:
+            W0 = assemble.Assembler(mkvf(), kv, args=dict(args))
+            vp = np.moveaxis(np.asarray(W0.assemble(layout='packed')), -1, 0)
+            _close(rec, 'config_vs_canonical', vp.reshape(-1), A0.reshape(-1), scale, dict(sig, route='Assembler.assemble', layout='packed'), c)
         v1 = np.asarray(asm.assemble_vector()); v2 = np.asarray(asm.assemble_vector())
         rec.count('oracle:reuse_bitwise')
         if not np.array_equal(v1, v2): rec.violation(dict(sig, oracle='an assembler object assembled twice gives the same vector'), c, {})
@@ -204,6 +208,13 @@ def run_case(rec, case):
         # ---- the same through the public assemble() with a fresh form object
         X = _dense(assemble.assemble(mkvf(), kv, args=dict(args), symmetric=False, format='csr', layout='blocked'))
         _close(rec, 'config_vs_canonical', X, A0, scale, dict(sig, route='assemble()'), c); nconf += 1
+        # ---- the Assembler wrapper with explicit format/layout
+        W0 = assemble.Assembler(mkvf(), kv, args=dict(args), symmetric=False)
+        for fmt, layout in ([('csr', 'packed'), ('bsr', 'packed'), ('csc', 'blocked')] if vec else [('csc', 'blocked'), ('coo', 'blocked')]):
+            D = _dense(W0.assemble(format=fmt, layout=layout))
+            if vec and layout == 'packed': D = unpack(D)
+            nconf += 1; rec.count('oracle:config_vs_canonical')
+            _close(rec, 'config_vs_canonical', D, A0, scale, dict(sig, route='Assembler.assemble', format=fmt, layout=layout), c)
         # ---- reuse
         Xa = [assemble.assemble_entries(asm).toarray() for _ in range(3)]
         rec.count('oracle:reuse_bitwise')
